@@ -19,7 +19,8 @@ RULE = ('solved 2021-2023 returns from the answer-on-demand generator (non-negat
         'above income, medical above/below the floor, credits above tax, NC taxable income below zero, refund applied to next year, 8606). '
         'Oracle: balance equations (1040: 34-37 = 33-24, not both positive, 35a+36 = 34; NC: 28/26a vs 25-19, 34 = 28-33, 27 = 26a+26d+26e) '
         'and >= 0 for every floored/named line. Non-trivial = a solved return where at least one zero floor is active (the unfloored '
-        'expression is negative) or the return owes; distinct = (year, forms, set of active floors, owes)')
+        'expression is negative) or the return owes; distinct = (year, forms, set of active floors, owes)'
+        ' Also: the same return with its withholding moved so that the federal / N.C. balance is 0, +-1 cent ... +-250 dollars; third economic impact payments larger than the credit; refunds of overpaid mortgage interest larger than the interest.')
 ASSUMPTIONS = ['inputs are non-negative amounts (the generator draws no negative amounts)',
                'lines that legitimately follow a negative AGI or hold a loss are excluded by name (see data/nonneg_lines.json)']
 
@@ -119,7 +120,10 @@ def shard(ctx, k, payload):
 
     def body(data):
         p = data.draw(scenario.personas())
-        bias = data.draw(st.sampled_from(['none', 'owes', 'refund', 'big_deductions', 'low_income_nc', 'apply_refund', 'credits_over_tax']))
+        bias = data.draw(st.sampled_from(['none', 'owes', 'refund', 'big_deductions', 'low_income_nc', 'apply_refund', 'credits_over_tax', 'interest_refund']))
+        if bias == 'interest_refund':
+            # a Form 1098 whose refund of overpaid interest (box 4) exceeds this year's interest and points
+            p.update(itemize=True, n_1098=max(1, p['n_1098']), big_1098_refund=True)
         if bias == 'owes':
             p['withhold_share'] = 0.0
         elif bias == 'refund':
